@@ -1199,6 +1199,9 @@ func (x *Explorer) doSelect(st *State, f *Frame, s *ssa.Select) {
 			}
 		}
 		if idx >= 0 {
+			if ct := asInt(x.val(cur, cf, s.States[idx].Chan)); ct.Op == "uf" && ct.Name == "ctxdone_ch" {
+				cur.assume(UF("ctxdone", SBool, ct.Args[0])) // <-ctx.Done() only fires on a finished context
+			}
 			cur.trail = append(cur.trail, fmt.Sprintf("%s:select#%d=%s", cf.name, cf.block.Index, x.chanExprName(cf, s.States[idx].Chan)))
 			cur.ghosts["select.case"] = VInt{T: IntLit(int64(idx))}
 		} else {
